@@ -4,16 +4,16 @@ CONSTANTS
   MaxRedirect = 65535
   MaxHeader = 255
   Deviations = {}
-  Bug = ""
-  Mode = "lk"
-  NC = 2
+  Bug = "DedupeUnstableIndex"
+  Mode = "dims"
+  NC = 3
   MaxBody = 3
   MaxPrefix = 2
-  SkipBytes = {0, 128}
+  SkipBytes = {0, 1, 128}
   Variants = {0}
   DimVals = {0, 3}
   MaxW = 2
-  MaxH = 1
+  MaxH = 0
   DomT = 1
   PadK = 0
   Waive = {}
